@@ -81,7 +81,7 @@ def gen_norm(rng, n, tier="quick"):
         by_name = z.iana is not None and rng.random() < 0.5
         tzarg = z.iana if by_name else z.tzinfo
         tz_tok = ("Zname:%d" if by_name else "Zobj:%d") % z.id
-        k = i % 12
+        k = i % 13
         k = {9: 7, 10: 7}.get(k, k)       # the period functions three times as often
         descr = {"observer": obs_descr(o), "zone": z.describe(), "tz_by_name": by_name,
                  "now": now.isoformat()}
@@ -161,6 +161,35 @@ def gen_norm(rng, n, tier="quick"):
             yield Case(fn, "pub_period %s %s %s %s %s %s" % (
                 fn, obs_tok(o), I(darg.toordinal()) if darg else N, dir_tok(di), tz_tok,
                 I(instant_us(now))), exp, descr)
+        elif k == 12:
+            # daylight / night with the date spelled as a date, a naive or an aware datetime
+            is_night = rng.random() < 0.5
+            sp = rng.random()
+            if sp < 0.15:
+                darg, dtok = None, N
+            elif sp < 0.3:
+                darg, dtok = d, I(d.toordinal())
+            elif sp < 0.55:
+                darg = datetime.datetime(d.year, d.month, d.day, rng.choice([0, 23, rng.randint(0, 23)]),
+                                         rng.randint(0, 59))
+                dtok = "W%d" % wall_us(darg)
+            else:
+                z2 = zones.rand_zone(rng, d)
+                naive = datetime.datetime(d.year, d.month, d.day, rng.choice([0, 23, rng.randint(0, 23)]),
+                                          rng.randint(0, 59))
+                darg = naive.replace(tzinfo=z2.tzinfo)
+                dtok = "A%d:%d" % (wall_us(naive), z2.id)
+                descr["date_zone"] = z2.describe()
+            descr.update({"function": "night" if is_night else "daylight", "date": repr(darg)})
+            with FrozenClock(now):
+                st, v = call(sun.night if is_night else sun.daylight, o, darg, tzarg)
+            if st == "ok":
+                exp = ("%s %s" % (inst_off(v[0], None), inst_off(v[1], None))
+                       if type(v) is tuple and len(v) == 2 else "X%s" % type(v).__name__)
+            else:
+                exp = E(v)
+            yield Case("night" if is_night else "daylight", "pub_daynight %s %s %s %s %s" % (
+                B(is_night), obs_tok(o), dtok, tz_tok, I(instant_us(now))), exp, descr)
         elif k == 11:
             # solar angles with the instant omitted: "now", read from the clock as UTC; the
             # refraction switch must still be honoured
